@@ -300,7 +300,7 @@ def _raises_valueerror(fn):
 
 
 # ------------------------------------------------------------------------------------------------
-def make_fold_body(shape, pats):
+def make_fold_body(shape, pats, layout='C'):
     shape = tuple(shape)
     E = int(np.prod(shape))
     ids = IDS5[:len(shape)]
@@ -313,6 +313,10 @@ def make_fold_body(shape, pats):
         from dadi import Numerics
         em = _Emit(env)
         x = env.array('x', shape)
+        if layout == 'T':
+            # same values at the same indices, but held in a transposed (non C-contiguous) view: index order, not
+            # memory order, is what folding / reversing / unfolding are defined on
+            x = np.ascontiguousarray(x.T).T
         xm = np.empty(shape, dtype=x.dtype)          # explicit mirror image of the data
         for idx in idxs:
             xm[idx] = x[_mirror(idx, shape)]
@@ -322,7 +326,10 @@ def make_fold_body(shape, pats):
             Mm = np.zeros(shape, dtype=bool)
             for idx in idxs:
                 Mm[idx] = M[_mirror(idx, shape)]
-            fs = dadi.Spectrum(x, mask=M.copy(), mask_corners=False, pop_ids=list(ids))
+            fs = dadi.Spectrum(x, mask=(np.ascontiguousarray(M.T).T if layout == 'T' else M.copy()), mask_corners=False,
+                               pop_ids=list(ids))
+            if layout == 'T':
+                em.ok('input is a non-contiguous view', not np.ma.getdata(fs).flags['C_CONTIGUOUS'])
             em.ok('constructed unfolded', fs.folded is False)
             fo = fs.fold()
             od, om, ofo = _fold_oracle(env, x, M, shape)
@@ -603,7 +610,7 @@ def make_ops_body(shape, pairs, folded):
             mBm = np.ma.getmaskarray(mB).copy()
             first = pi == 0
 
-            def check(tag, r, wantmask, f, ids_want=ids):
+            def check(tag, r, wantmask, f, ids_want=ids, fresh=()):
                 em.ok(tag + ' type', _is_spectrum(r))
                 em.ok(tag + ' folded flag', r.folded is folded)
                 em.ok(tag + ' pop_ids', r.pop_ids is not None and list(r.pop_ids) == list(ids_want))
@@ -612,23 +619,35 @@ def make_ops_body(shape, pairs, folded):
                 for idx in idxs:
                     if not wantmask[idx] and not rm[idx]:
                         em.eq('%s[%s] data%s' % (tag, ps, list(idx)), rd[idx], f(idx))
+                if fresh:
+                    # the operands' masks and data survive what is later done to the RESULT of dadi's own (non-in-place)
+                    # operators: mask every entry of the result and overwrite its data, then look back at the operands
+                    snap = [(o_, np.ma.getmaskarray(o_).copy(), np.array(np.ma.getdata(o_))) for o_ in fresh]
+                    if isinstance(np.ma.getmask(r), np.ndarray):
+                        np.ma.getmask(r)[...] = True
+                    np.ma.getdata(r)[...] = 0
+                    for o_, m0, d0 in snap:
+                        d1 = np.ma.getdata(o_)
+                        em.ok(tag + ' operand unchanged after the result was masked and overwritten',
+                              np.array_equal(np.ma.getmaskarray(o_), m0)
+                              and all(d1[i] is d0[i] or bool(d1[i] == d0[i]) for i in idxs))
 
             for name, op in BINOPS:
-                check(name + '(S,S)', op(A, B), Am | Bm, lambda i: op(Ad[i], Bd[i]))
-                check(name + '(S,sym)', op(A, c), Am, lambda i: op(Ad[i], c))
-                check(name + '(sym,S)', op(c, A), Am, lambda i: op(c, Ad[i]))
-                check(name + '(S,int)', op(A, two), Am, lambda i: op(Ad[i], two))
-                check(name + '(int,S)', op(two, A), Am, lambda i: op(two, Ad[i]))
-                check(name + '(S,ndarray)', op(A, yarr), Am, lambda i: op(Ad[i], y[i]))
-                check(name + '(ndarray,S)', op(yarr, A), Am, lambda i: op(y[i], Ad[i]))
-                check(name + '(S,masked_array)', op(A, mB), Am | mBm, lambda i: op(Ad[i], y[i]))
-                check(name + '(masked_array,S)', op(mB, A), Am | mBm, lambda i: op(y[i], Ad[i]))
+                check(name + '(S,S)', op(A, B), Am | Bm, lambda i: op(Ad[i], Bd[i]), fresh=(A, B))
+                check(name + '(S,sym)', op(A, c), Am, lambda i: op(Ad[i], c), fresh=(A,))
+                check(name + '(sym,S)', op(c, A), Am, lambda i: op(c, Ad[i]), fresh=(A,))
+                check(name + '(S,int)', op(A, two), Am, lambda i: op(Ad[i], two), fresh=(A,))
+                check(name + '(int,S)', op(two, A), Am, lambda i: op(two, Ad[i]), fresh=(A,))
+                check(name + '(S,ndarray)', op(A, yarr), Am, lambda i: op(Ad[i], y[i]), fresh=(A, yarr))
+                check(name + '(ndarray,S)', op(yarr, A), Am, lambda i: op(y[i], Ad[i]), fresh=(A, yarr))
+                check(name + '(S,masked_array)', op(A, mB), Am | mBm, lambda i: op(Ad[i], y[i]), fresh=(A, mB))
+                check(name + '(masked_array,S)', op(mB, A), Am | mBm, lambda i: op(y[i], Ad[i]), fresh=(A, mB))
                 em.ok(name + ' mixed folding refused', _raises_valueerror(lambda: op(A, other_fold)))
                 em.ok(name + ' mixed folding refused (reflected)', _raises_valueerror(lambda: op(other_fold, A)))
-            check('pow(S,2)', A ** 2, Am, lambda i: Ad[i] * Ad[i])
+            check('pow(S,2)', A ** 2, Am, lambda i: Ad[i] * Ad[i], fresh=(A,))
             check('pow(S,3)', A ** 3, Am, lambda i: Ad[i] * Ad[i] * Ad[i])
             check('pow(S,sym)', A ** c, Am, lambda i: Ad[i] ** c)          # POW(x, c): uninterpreted, same term
-            check('rpow(int,S)', two ** A, Am, lambda i: two ** Ad[i])
+            check('rpow(int,S)', two ** A, Am, lambda i: two ** Ad[i], fresh=(A,))
             check('rpow(sym,S)', c ** A, Am, lambda i: c ** Ad[i])
             em.ok('pow mixed folding refused', _raises_valueerror(lambda: A ** other_fold))
             em.ok('rpow mixed folding refused', _raises_valueerror(lambda: other_fold ** A))
@@ -636,7 +655,7 @@ def make_ops_body(shape, pairs, folded):
             check('neg', -A, Am, lambda i: env.const(0) - Ad[i])
             check('pos', +A, Am, lambda i: Ad[i])
             check('abs', abs(A), Am, lambda i: H.ite(env, Ad[i] >= 0, Ad[i], env.const(0) - Ad[i]))
-            check('copy', A.copy(), Am, lambda i: Ad[i])
+            check('copy', A.copy(), Am, lambda i: Ad[i], fresh=(A,))
             # in place
             for name, op in IOPS:
                 bop = dict(BINOPS)[name[1:]]
@@ -932,6 +951,12 @@ def units(tier, seed):
         nlow = sum(1 for i in np.ndindex(*shape) if 2 * sum(i) <= N)
         upats = _patterns(nlow, full_limit, pair_limit)
         add('unfold', shape, make_unfold_body, upats, chunk * 2, min_ob=nlow)
+
+    # ---- memory layout: transposed (non C-contiguous) views of the data and the mask
+    for shape in ([(2, 3), (3, 4), (2, 2, 3)] + ([(4, 3), (3, 2, 2), (2, 3, 2, 2)] if thorough else [])):
+        E = int(np.prod(shape))
+        pats = _patterns(E, 6, 0)
+        add('fold', shape, make_fold_body, pats, chunk, extra='layoutT', args=('T',))
 
     # ---- large sample sizes (entry-index arithmetic past 127 / 255 chromosomes per axis): two mask patterns only
     for shape in ([(130,), (258,), (3, 130), (131, 2)] + ([(300,), (129, 2, 2), (2, 258)] if thorough else [])):
